@@ -119,7 +119,7 @@ func genC06(ctx *Ctx) {
 				related := a.Type() == b.Type() || (a.Type() == variants.DateTime && (b.Type() == variants.Long || b.Type() == variants.Integer))
 				indexing := (op == 21 && (a.Type() == variants.String || a.Type() == variants.Array) && (b.Type() == variants.Integer || b.Type() == variants.Long)) ||
 					(op == 20 && a.Type() == variants.Array) || op == 12 || op == 13
-				if !ctx.Thorough && !indexing && !(related && op >= 14 && op <= 19) && (i*131+j*17+op)%7 != int(ctx.Rnd.Int63()%7) {
+				if !ctx.Thorough && !indexing && i != j && !(related && op >= 14 && op <= 19) && (i*131+j*17+op)%7 != int(ctx.Rnd.Int63()%7) {
 					continue
 				}
 				for _, safe := range []bool{false, true} {
@@ -420,7 +420,13 @@ func runC06(in sx.SX) (sx.SX, string) {
 			fail = "the second operand cannot be converted to the first operand's type, yet the operator returned " + sx.Text(obs)
 		}
 	}
-	// comparisons are mutually consistent
+	// comparisons are mutually consistent (operands of different types: on the second operand converted to the first's type)
+	origB := b
+	if fail == "" && op >= 14 && op <= 19 && a.Type() != b.Type() && a.Type() != variants.Null && b.Type() != variants.Null {
+		if cb, cerr := m.Convert(b, a.Type()); cerr == nil && cb != nil {
+			b = cb
+		}
+	}
 	if fail == "" && a.Type() == b.Type() && a.Type() != variants.Null {
 		switch op {
 		case 17: // a<b iff b>a
@@ -444,6 +450,34 @@ func runC06(in sx.SX) (sx.SX, string) {
 			if y, ok2 := isBoolRes(r2, e2); ok1 && ok2 && x == y {
 				fail = "a<>b and a=b agree"
 			}
+		case 16: // a>b iff b<a
+			x, ok1 := isBoolRes(res, err)
+			r2, e2 := m.Less(b, a)
+			if y, ok2 := isBoolRes(r2, e2); ok1 && ok2 && x != y {
+				fail = "a>b and b<a disagree"
+			}
+		case 18: // a>=b iff a>b or a=b, and iff b<=a
+			x, ok1 := isBoolRes(res, err)
+			r2, e2 := m.More(a, b)
+			r3, e3 := m.Equal(a, b)
+			r4, e4 := m.LessEqual(b, a)
+			y, ok2 := isBoolRes(r2, e2)
+			z, ok3 := isBoolRes(r3, e3)
+			w, ok4 := isBoolRes(r4, e4)
+			if ok1 && ok2 && ok3 && x != (y || z) {
+				fail = "a>=b differs from (a>b or a=b)"
+			} else if ok1 && ok4 && x != w {
+				fail = "a>=b and b<=a disagree"
+			}
+		}
+	}
+	b = origB
+	// the answer depends on the operands' values, not on their identity: when both operands hold the same value, passing
+	// the very same object twice gives what two separate objects give
+	if fail == "" && binary && op != 21 && sx.Text(l[2]) == sx.Text(l[3]) {
+		r2, e2 := applyOp(m, op, a, a)
+		if o2, _ := resSX(r2, e2); sx.Text(o2) != sx.Text(obs) {
+			fail = fmt.Sprintf("with the same object as both operands the operator returns %s, with two objects holding that value %s", sx.Text(o2), sx.Text(obs))
 		}
 	}
 	// undefined operations yield an error
